@@ -194,7 +194,7 @@ def _is_generator(fi) -> bool:
     return _has_yield(fi)
 
 
-def _membership_known(s, base, idx) -> bool:
+def _membership_known(s, base, idx, upto=None) -> bool:
     from .util import implied_atoms
     b, i = strip_sites(base), strip_sites(idx)
     ok = False
@@ -205,6 +205,8 @@ def _membership_known(s, base, idx) -> bool:
     if not ok:
         return False
     for e in s.events:
+        if e is upto:
+            break  # (the operation asked about)
         if e.kind == "call" and e.recv is not None and strip_sites(e.recv) == b \
                 and e.attrname in ("pop", "popitem", "clear", "remove", "discard", "__delitem__"):
             return False
@@ -242,7 +244,7 @@ class EscapePolicy(InlineOnly):
             # `del base[idx]`: fails like the lookup does (also on a defaultdict), unless the path established membership
             if ev.value != ("deleted",) or ev.target is None or ev.target[0] != "item":
                 return []
-            if _membership_known(s, ev.target[1], ev.target[2]):
+            if _membership_known(s, ev.target[1], ev.target[2], upto=ev):
                 return []
             o.note_site("KeyError", ev)
             return ["KeyError"]
@@ -332,6 +334,8 @@ class EscapePolicy(InlineOnly):
                 return []
             if ev.args and _drawn_from(ev.args[0], ev.recv, [(c_, v_) for c_, v_, _n, _k in s.conds]):
                 return []  # the element / key was obtained by iterating this very container
+            if ev.args and _membership_known(s, ev.recv, ev.args[0], upto=ev):
+                return []  # `x in container` was established on this path and nothing was removed since (look before you leap)
             return {"pop": ["KeyError"], "remove": ["ValueError"], "index": ["ValueError"]}[ev.attrname]
         if f is not None and f[0] == "classconst" and len(ev.args) == 1:
             # cls._address_type(addr_b): address class of the option family applied to an 's' field
